@@ -17,7 +17,7 @@ CLAIMED = {
     'C02': dict(
         text='Theorems (SfxProps.C02): each checked/saturating/wrapping/overflowing form of the modelled operations equals the documented function of one '
              'exact result and has no debug-only panic; correspondence on the public API in both profiles. '
-             'Also proved and exercised (SfxProps/C02Ops.lean, request fprog): the operator trait impls of the plain types in every variant (by value / by reference / assigning, integer right- and left-hand sides, shifts with the 12 amount types, Sum/Product): each program of any length equals the documented run under both profiles (exact result wrapped in release, panic under checks exactly when it does not fit), and the release run is the Wrapping<F> run.',
+             'Also proved and exercised (SfxProps/C02Ops.lean, request fprog): the operator trait impls of the plain types in every variant (by value / by reference / assigning, integer right- and left-hand sides, shifts with the 12 amount types, Sum/Product): each program of any length equals the documented run under both profiles (exact result wrapped in release, panic under checks exactly when it does not fit), and the release run is the Wrapping<F> run. SfxProps/C02Spec.lean: the four overflow treatments every statement is written with are characterised without %: wrap = THE representable value congruent to the exact result modulo 2^n (wrapI_is_wrapped, wrapped_unique), saturate = THE representable value nearest to it (clampI_is_nearest, nearest_unique), checked/overflowing by their sentences (chkI_sentence, ovfI_sentence).',
         design_ref='7/C02', note=COMMON_NOTE, technique='Lean 4 proof over executable model + differential correspondence'),
     'C03': dict(
         text='Theorems SfxProps.C03.fixed_holds / float_holds (full strength): for EVERY ordered pair of valid layouts (integers = zero-fraction layouts, both operand orders) '
@@ -151,6 +151,6 @@ CLAIMED = {
              'under both build profiles; built on the C01/C02/C06/C07 theorems. Correspondence: programs of 1..12 steps over every impl variant (by value / by reference / '
              'assigning, 12 shift-amount types, integer right-hand sides, sum/product) in both profiles; Wrapping::from_num (fixed, 12 integer types, bool, f32/f64), Wrapping::to_num and '
              'Wrapping::from_str / from_str_binary/_octal/_hex are exercised through their own entry points and answered by the wrapping forms of the C04/C05/C08 models; '
-             'SfxProps/C18Entry.lean (from_num_fixed, from_num_float, from_str) restates what is proved about those forms in C18\'s terms.',
+             'SfxProps/C18Entry.lean (from_num_fixed, from_num_float, from_str) restates what is proved about those forms in C18\'s terms. SfxProps/C02Spec.lean: the four overflow treatments every statement is written with are characterised without %: wrap = THE representable value congruent to the exact result modulo 2^n (wrapI_is_wrapped, wrapped_unique), saturate = THE representable value nearest to it (clampI_is_nearest, nearest_unique), checked/overflowing by their sentences (chkI_sentence, ovfI_sentence).',
         design_ref='7/C18', note=COMMON_NOTE, technique='Lean 4 proof (induction over programs) over executable model + differential correspondence'),
 }
